@@ -230,6 +230,19 @@ R20 = {
  "C17": "the xDS conversion carries host_rewrite_header",
  "C18": "the error of every DATA frame write flows into a return value; the connection error FLOW_CONTROL_ERROR of a WINDOW_UPDATE is raised only for the connection window; a DATA frame the server refuses with a stream error is returned to the connection window first",
 }
+R21 = {
+ "C01": "the key and value views of a decoded header block end with their capacity (a replacement written in place cannot run into the rest of the retained frame)",
+ "C03": "nothing that stops or clears the global response timer can precede a setupRetry call in its caller (a granted retry is still bounded by the global timeout)",
+ "C07": "every Framer field the parse of a frame writes is reset at the entry of MFramer.ReadFrame or restored when the header block is incomplete (a re-parse is idempotent on framer state)",
+ "C08": "the stream layer sizes body buffers from constants and the length of bytes already received, never from an announced length such as content-length",
+ "C09": "removeFromPool reads the idle list on every path (an ended client leaves it whatever else is true of it)",
+ "C10": "a pool's host, whose resource manager and gauges it charges and releases at event time, is set when the pool is built and nothing calls UpdateHost",
+ "C11": "the HTTP/1 drain mark of a server connection is only ever raised (every store is the constant true), the transfer listener raises it and endStream reads it",
+ "C12": "the tls context manager a listener update installs is built after, and from the object in which, the new inspector flag and tls contexts were recorded",
+ "C13": "the tls context manager a listener update installs is built after, and from the object in which, the new inspector flag and tls contexts were recorded",
+ "C17": "nothing that stops or clears the global response timer can precede a setupRetry call in its caller",
+ "C20": "redactTLSConfig replaces sds_source under no condition other than its presence",
+}
 GENERIC = "generic hygiene over the property's packages: no loop-variable address escapes its iteration, every mutex acquired in a function is released on every path to its return and not re-acquired in a callee, a field accessed through sync/atomic is never accessed plainly outside construction (frozen exceptions), storage given back to a pool is not returned or stored, no append onto a loop-invariant slice whose result is kept, no signed remainder of a converted unsigned 64-bit value or of a wrapping signed 32-bit counter, no remainder of a 32-bit sum with an unreduced atomic counter, a receiver field a method rewrites is not retained by what the method hands it to, a key looked up in a map field under a mutex and inserted when absent is inserted in the same critical section"
 props = [json.loads(l)['id'] for l in open('/verif/properties.jsonl')]
 checks, na = [], []
@@ -259,6 +272,8 @@ for p in props:
         dec = dec + "; " + R19[p]
     if p in R20:
         dec = dec + "; " + R20[p]
+    if p in R21:
+        dec = dec + "; " + R21[p]
     dec = dec + "; " + GENERIC
     tech = tech + ", lock-balance and atomic-discipline dataflow"
     if p in R8:
